@@ -475,3 +475,120 @@ def same_sample_gates_rule(prog, chk, rule, file_filter, floor_n):
                        detail=None if ok else "%s: the condition that decides whether a sample takes part tests two different samples" % ", ".join("%s(%s)" % (g_, a_) for a_, g_ in args),
                        key="%s|%s|%s" % (rule, f.name, r))
     chk.floor(rule, n, floor_n)
+
+
+def inner_gate_rule(prog, chk, rule, file_filter, floor_n):
+    """in a loop over the pairs of samples, the undefined-value gate of the INNER loop looks at the inner sample.  A gate of the inner body
+    whose condition (locals of the body replaced by their definitions) depends on the outer rank only and on nothing the inner loop
+    changes was already decided by the outer loop: it lets every second sample through, so a sample without value is counted among the
+    neighbours of all the others (declustering by the moving-window count tested the value of the target twice)."""
+    def strip(e):
+        while e is not None and e["k"] == "Cast" and e.get("c"):
+            e = e["c"][0]
+        return e
+
+    def loopvar(L):
+        c = L["c"][1]
+        if c is None or c["k"] != "BinOp" or c.get("op") not in ("<", "<="):
+            return None
+        a = strip(c["c"][0])
+        return a["d"] if a is not None and a["k"] == "DeclRefExpr" else None
+
+    def is_continue_if(s_):
+        if s_["k"] != "If" or s_["c"][-1] is not None or s_["c"][-2] is None:
+            return False
+        t = s_["c"][-2]
+        return t["k"] == "Continue" or (t["k"] == "Block" and len([c for c in t["c"] if c]) == 1 and [c for c in t["c"] if c][0]["k"] == "Continue")
+
+    def mentions(e, d):
+        return any(z["k"] == "DeclRefExpr" and z.get("d") == d for z in walk(e))
+    GATES = ("isActive", "FFFF", "isActiveAndDefined", "isIsotopic")
+    n = 0
+    for f in sorted(prog.funcs, key=lambda x: (x.file, x.line)):
+        if f.body is None or not any(s_ in f.file for s_ in file_filter):
+            continue
+        for Lo in f.walk():
+            if Lo["k"] != "For" or len(Lo["c"]) < 4 or Lo["c"][3] is None:
+                continue
+            vi = loopvar(Lo)
+            if vi is None:
+                continue
+            for Li in walk(Lo["c"][3]):
+                if Li["k"] != "For" or len(Li["c"]) < 4 or Li["c"][3] is None or Li["c"][3]["k"] != "Block":
+                    continue
+                vj = loopvar(Li)
+                if vj is None or vj == vi:
+                    continue
+                body = [s_ for s_ in Li["c"][3]["c"] if s_]
+                gates_ = [s_ for s_ in body if is_continue_if(s_)]
+                if not any(mentions(s_["c"][-3], vj) and any(z["k"] in ("MCall", "Call") and (z.get("callee") or "").split("::")[-1] in GATES
+                                                             for z in walk(s_["c"][-3])) for s_ in gates_):
+                    continue            # not a loop over samples
+                loc = {}
+                for s_ in body:
+                    if s_["k"] == "DeclStmt":
+                        for v in s_["c"]:
+                            if v and v["k"] == "VarDecl" and v.get("c") and v["c"][0] is not None:
+                                loc[v["d"]] = v["c"][0]
+                assigned = set()
+                for z in walk(Li["c"][3]):
+                    if z["k"] in ("Assign", "CompoundAssign") and strip(z["c"][0]) is not None and strip(z["c"][0])["k"] == "DeclRefExpr":
+                        assigned.add(strip(z["c"][0])["d"])
+                    if z["k"] == "UnOp" and z.get("op") in ("++", "--", "post++", "post--", "pre++", "pre--") and strip(z["c"][0]) is not None and \
+                            strip(z["c"][0])["k"] == "DeclRefExpr":
+                        assigned.add(strip(z["c"][0])["d"])
+                for s_ in gates_:
+                    c = s_["c"][-3]
+                    if not any(z["k"] == "Call" and (z.get("callee") or "") == "FFFF" for z in walk(c)):
+                        continue
+                    deps = set()
+
+                    def collect(e, depth=0):
+                        for z in walk(e):
+                            if z["k"] == "DeclRefExpr" and z.get("dk") == "var":
+                                deps.add(z["d"])
+                                if z["d"] in loc and depth < 3:
+                                    collect(loc[z["d"]], depth + 1)
+                    collect(c)
+                    n += 1
+                    bad = vj not in deps and not (deps & assigned) and vi in deps
+                    if bad:
+                        chk.analysed(f)
+                    chk.ob(rule, "%s: the value gate `%s` of the inner sample loop looks at the inner sample" % (f.name, show(c)[:50]), f.loc(s_), not bad,
+                           detail=None if not bad else "the condition depends on the outer rank only (%s): it was already decided before the inner loop, so the inner "
+                           "sample is never tested and a sample without value counts as a neighbour" % ", ".join(sorted(show(loc[d_])[:40] for d_ in deps if d_ in loc) or [show(c)[:40]]),
+                           key="%s|%s|%s" % (rule, f.name, show(c)[:40]), nontrivial=bad)
+    chk.floor(rule, n, floor_n)
+
+
+def selection_switch_rule(prog, chk, rule, file_filter, floor_n):
+    """a selection switch (`useSel`, `flag_sel`, `hasSel`...) set means: the masked samples are left out.  Everywhere in the library the switch
+    and the activity test are combined as `!S || isActive(i)` (process) or `S && !isActive(i)` (skip).  The other polarities (`S || isActive(i)`,
+    `!S && !isActive(i)`) use the selection exactly when the caller asked to ignore it, and ignore it when asked to honour it."""
+    from e1_paths import peel_cond
+    import re
+    n = 0
+    for f in sorted(prog.funcs, key=lambda x: (x.file, x.line)):
+        if f.body is None or not any(s_ in f.file for s_ in file_filter):
+            continue
+        for x in f.walk():
+            if x["k"] != "BinOp" or x.get("op") not in ("||", "&&"):
+                continue
+            sides = [peel_cond(c) for c in x["c"]]
+            if any(core is None for core, _ in sides):
+                continue
+            sw = [(core, pol) for core, pol in sides if core["k"] == "DeclRefExpr" and re.search(r"sel", core.get("n") or "", re.I) and
+                  (core.get("t") or "") in ("bool", "int", "const bool", "const int")]
+            act = [(core, pol) for core, pol in sides if core["k"] == "MCall" and (core.get("callee") or "").split("::")[-1] == "isActive"]
+            if len(sw) != 1 or len(act) != 1:
+                continue
+            n += 1
+            (s_core, s_pol), (_a, a_pol) = sw[0], act[0]
+            ok = (x["op"] == "||" and s_pol is False and a_pol is True) or (x["op"] == "&&" and s_pol is True and a_pol is False)
+            if not ok:
+                chk.analysed(f)
+            chk.ob(rule, "%s: `%s` leaves the masked samples out exactly when `%s` is set" % (f.name, show(x)[:50], s_core["n"]), f.loc(x), ok,
+                   detail=None if ok else "the switch and the activity test are combined with the opposite polarity of the %d other sites of the library: the "
+                   "selection is consulted when the caller asked to ignore it and ignored when asked to honour it" % max(n - 1, 0),
+                   key="%s|%s|%s" % (rule, f.name, show(x)[:40]), nontrivial=not ok)
+    chk.floor(rule, n, floor_n)
